@@ -502,9 +502,9 @@ func seqOp(r *h.Rand, nkeys int, conflict float64, tmax int64) string {
 }
 
 func gen(r *h.Rand, tier string, emit func([]string)) {
-	nSeq, nConc := 2500, 600
+	nSeq, nConc, nRace := 2500, 600, 2500
 	if tier == "thorough" {
-		nSeq, nConc = 40000, 20000
+		nSeq, nConc, nRace = 40000, 20000, 40000
 	}
 	k, cpu := h.Hex(keyPool[0]), h.Hex(keyPool[1])
 	// fixed scenarios
@@ -593,6 +593,22 @@ func gen(r *h.Rand, tier string, emit func([]string)) {
 		tail = append(tail, "count")
 		ops = append(ops, "conc "+strings.Join(ths, " | ")+" || "+strings.Join(tail, " ; "))
 		emit(ops)
+	}
+	// 2b. targeted race (finding lost-write-racing-delete): a write racing a range delete
+	// that empties the entry of the same key
+	for c := 0; c < nRace; c++ {
+		t0 := int64(r.Intn(40))
+		w := fmt.Sprintf("write %s=%d:f:%s", k, t0+100+int64(r.Intn(5)), h.Hex64(r.Uint64()))
+		d := fmt.Sprintf("delrange %s %d %d", k, t0, t0+50)
+		ths := []string{w, d}
+		if r.Bool() {
+			ths = []string{d, w}
+		}
+		if r.Chance(0.3) {
+			ths = append(ths, "values "+k)
+		}
+		emit([]string{fmt.Sprintf("write %s=%d:f:3ff0000000000000", k, t0+int64(r.Intn(50))),
+			"conc " + strings.Join(ths, " | ") + " || values " + k + " ; count"})
 	}
 	// 3. malformed lines
 	emit([]string{"write", "write 6b", "write 6b=1:f:1", "write 6b=1:x:1", "write 6B=1:i:1", "write 6b=1:i:01", "write 6b=1:i:1 6b=2:i:1",
